@@ -83,6 +83,8 @@ func (f *fn) Order(o ...int) *fn       { f.order = o; return f }
 func (f *fn) Dom(d func(a A) bool) *fn { f.domain = d; return f }
 func R(v ...interface{}) []interface{} { return v }
 
+var driversRun int
+
 var collectMode = os.Getenv("VERIF_C14_COLLECT") != ""
 
 var placeholderRe = regexp.MustCompile(`\$[0-9]`)
@@ -292,6 +294,18 @@ func runCalls(w *wk.Client, calls []Call, expected []string) verdict {
 			v.inconclusive = "driver does not compile (stage " + r.Stage + "): " + tailStr(o.Err, 600)
 			return v
 		}
+		if strings.Contains(o.Err, "cannot allocate memory") || strings.Contains(o.Err, "error compiling wasm") || strings.Contains(o.Err, "failed to compile") {
+			// the wasm engine could not even instantiate the module (address space of a
+			// long-lived worker exhausted): an environment failure, not a verdict
+			w.Close()
+			v.inconclusive = "wasm engine failed to instantiate the driver: " + tailStr(o.Err, 300)
+			return v
+		}
+	}
+	// a fresh worker every 20 drivers keeps the child's address space bounded
+	driversRun++
+	if driversRun%20 == 0 {
+		w.Close()
 	}
 	got := map[int]string{}
 	ended := false
